@@ -8,10 +8,10 @@
 #include "zlib.h"
 
 /* ---------- payloads ---------- */
-#define NPAY 6
+#define NPAY 7
 static uint8_t *pl_data[NPAY];
 static size_t pl_len[NPAY];
-static const char *const pl_name[NPAY] = {"empty", "1byte", "noise100", "rep400", "mixed500", "wide5000"};
+static const char *const pl_name[NPAY] = {"empty", "1byte", "tiny4", "noise100", "rep400", "mixed500", "wide5000"};
 
 static uint8_t lcg(uint32_t *s)
 {
@@ -26,34 +26,37 @@ static void build_payloads(void)
 	pl_len[1] = 1;
 	pl_data[1] = h_malloc(1);
 	pl_data[1][0] = 'A';
-	pl_len[2] = 100;
-	pl_data[2] = h_malloc(100);
+	pl_len[2] = 4;
+	pl_data[2] = h_malloc(4);
+	memcpy(pl_data[2], "jet!", 4);
+	pl_len[3] = 100;
+	pl_data[3] = h_malloc(100);
 	s = 42;
-	for (int i = 0; i < 100; i++) pl_data[2][i] = lcg(&s);
-	pl_len[3] = 400;
-	pl_data[3] = h_malloc(400);
-	for (int i = 0; i < 400; i++) pl_data[3][i] = (uint8_t)"jet!"[i % 4];
-	pl_len[4] = 500;
-	pl_data[4] = h_malloc(500);
+	for (int i = 0; i < 100; i++) pl_data[3][i] = lcg(&s);
+	pl_len[4] = 400;
+	pl_data[4] = h_malloc(400);
+	for (int i = 0; i < 400; i++) pl_data[4][i] = (uint8_t)"jet!"[i % 4];
+	pl_len[5] = 500;
+	pl_data[5] = h_malloc(500);
 	{
 		char txt[512];
 		size_t o = 0;
 		int id = 1;
 		while (o < 200) o += (size_t)snprintf(txt + o, sizeof(txt) - o, "{\"jsonrpc\":\"2.0\",\"method\":\"fetch\",\"params\":{\"id\":%d}}", id++);
-		memcpy(pl_data[4], txt, 200);
+		memcpy(pl_data[5], txt, 200);
 		s = 7;
-		for (int i = 200; i < 350; i++) pl_data[4][i] = lcg(&s);
-		for (int i = 350; i < 500; i++) pl_data[4][i] = (uint8_t)"abc"[i % 3];
+		for (int i = 200; i < 350; i++) pl_data[5][i] = lcg(&s);
+		for (int i = 350; i < 500; i++) pl_data[5][i] = (uint8_t)"abc"[i % 3];
 	}
 	/* wide5000: noise with three 128-byte blocks repeated at distances 700, 2000 and 4872, i.e. only
 	 * reachable with window bits >= 10, >= 12 (11) and >= 13 (15): discriminates the negotiated window. */
-	pl_len[5] = 5000;
-	pl_data[5] = h_malloc(5000);
+	pl_len[6] = 5000;
+	pl_data[6] = h_malloc(5000);
 	s = 99;
-	for (int i = 0; i < 5000; i++) pl_data[5][i] = lcg(&s);
-	memcpy(pl_data[5] + 4872, pl_data[5] + 0, 128);
-	memcpy(pl_data[5] + 3000, pl_data[5] + 1000, 128);
-	memcpy(pl_data[5] + 1900, pl_data[5] + 1200, 128);
+	for (int i = 0; i < 5000; i++) pl_data[6][i] = lcg(&s);
+	memcpy(pl_data[6] + 4872, pl_data[6] + 0, 128);
+	memcpy(pl_data[6] + 3000, pl_data[6] + 1000, 128);
+	memcpy(pl_data[6] + 1900, pl_data[6] + 1200, 128);
 }
 
 /* ---------- client compressor / decompressor ---------- */
